@@ -18,9 +18,9 @@ def val(x):
     return [0, 0] if math.isnan(x) else frac(x)
 
 
-def observe(H):
+def observe(H, sizes=(1, 2, 3)):
     out, errs = [], []
-    for ms in (1, 2, 3):
+    for ms in sizes:
         for ex in (True, False):
             for norm in (True, False):
                 with warnings.catch_warnings():
@@ -61,13 +61,14 @@ def _worker(args):
         rng.shuffle(cand)
         for e, n, m in cand[:3]:
             K = H.copy()
-            observe(K)
+            ms0 = rng.choice([1, 2, 2, 3])
+            observe(K, sizes=(ms0,))  # the same min_size before and after: nothing else may invalidate a cache
             K.remove_node_from_edge(e, n, remove_empty=False)
             K.add_node_to_edge(e, m)
             if len({frozenset(x) for x in K._edge.values()}) != K.num_edges:
                 continue
             st2, anom2 = hg.proj(K, g)
-            o2, errs2 = observe(K)
+            o2, errs2 = observe(K, sizes=(ms0,))
             out.append({"rid": f"s{base + k}.rewired", "what": f"shape {base + k} rewired in place ({g.name}/{vname})", "st": st2,
                         "obs": o2, "anom": sorted(set(anom2 + errs2))})
             break
@@ -87,6 +88,18 @@ def run(tier, seed_):
     if len(shapes) > b["max_shapes"]:
         # keep every downward closed one, sample the rest
         shapes = rng.sample(shapes, b["max_shapes"])
+    # hand-made and random larger shapes: maximal edges overlapping in three or more nodes, nested families
+    extra_members = [[[0, 1, 2, 3], [0, 1, 2, 4], [0, 2], [1, 2]], [[0, 1, 2, 3], [0, 1, 2, 4], [0, 1, 2], [0, 1], [2]],
+                     [[0, 1, 2, 3, 4], [0, 1, 2, 5], [1, 2], [0, 2], [3, 4]], [[0, 1, 2], [1, 2, 3], [2, 3, 4], [1, 2], [2, 3]],
+                     [[0, 1, 2, 3], [1, 2, 3], [0, 1, 2], [0, 1, 3], [0, 2, 3]]]
+    for _ in range(12 if tier == "quick" else 400):
+        ms_ = {tuple(sorted(rng.sample(range(6), rng.choice([1, 2, 2, 3, 3, 4])))) for _ in range(rng.randrange(3, 8))}
+        extra_members.append([list(m) for m in sorted(ms_)])
+    for mem in extra_members:
+        nodes_ = sorted({n for m in mem for n in m})
+        shapes.append({"nodes": nodes_, "edges": list(range(len(mem))), "e2n": mem,
+                       "n2e": [[k for k, m in enumerate(mem) if n in m] for n in nodes_], "nak": nodes_, "eak": list(range(len(mem))),
+                       "nattr": [[] for _ in nodes_], "eattr": [[] for _ in mem], "gattr": [], "uid": len(mem), "frozen": False})
     jobs = common.NCPU
     recs = []
     with ProcessPoolExecutor(max_workers=jobs) as ex:
